@@ -6,9 +6,10 @@ Parse diagnostic at the offending token, and the cursor never leaves the token v
 import re, os
 from tools import cxx2c
 from tools.cxx2c import Lower, Unsupported, kids, qt, qt_sugar, strip, strip_parens, callee_name, norm_type, walk
+from tools.cxx2c import REPO as _REPO
 
 NAME = 'PANN'
-SRC = '/repo/src/bloch/compiler/parser/parser.cpp'
+SRC = _REPO + '/src/bloch/compiler/parser/parser.cpp'
 NAMESPACE = 'bloch::compiler'
 FUNCS = ['peek', 'previous', 'isAtEnd', 'advance', 'check', 'checkNext', 'checkFunctionAnnotation', 'match', 'reportError', 'expect',
          'parseVariableAnnotation', 'parseFunctionAnnotation', 'parseAnnotations', 'isTypeAhead']
